@@ -194,6 +194,8 @@ def native_open_kinds(ck):
              ('a file truncated in the header (10 bytes)', hdr(72, 1, 2)[:10].hex(), 'SegmentNotInitialized'), ('garbage', ('ab' * 72), 'SegmentNotInitialized'),
              ('a valid segment', (hdr(72, 1, 2) + body).hex(), 'Ok'), ('generation 0', (hdr(72, 1, 0) + body).hex(), 'SegmentNotInitialized'),
              ('version 0', (hdr(72, 0, 2) + body).hex(), 'SegmentNotInitialized'), ('declared size 40', (hdr(40, 1, 2) + body).hex(), 'SegmentMalformed'),
+             ('a zero-filled file of 16 bytes', '00' * 16, 'SegmentNotInitialized'), ('a zero-filled file of 72 bytes', '00' * 72, 'SegmentNotInitialized'),
+             ('a header with version 0, generation 0 and declared size 8', hdr(8, 0, 0).hex() + '00' * 56, 'SegmentNotInitialized'),
              # a live header that declares more than the file holds (pages beyond the end of the file are mapped but must not be touched)
              ('a 72-byte file declaring 8192 bytes', (hdr(8192, 1, 2) + body).hex(), 'NOCRASH'), ('a 72-byte file declaring 16 MiB', (hdr(16 * 1024 * 1024, 1, 2) + body).hex(), 'NOCRASH')]
     rp = common.Replay('debug')
